@@ -118,8 +118,8 @@ func (s *Stats) Class(c string, n int64) {
 	s.mu.Unlock()
 }
 func (s *Stats) Excluded(c string) { s.mu.Lock(); s.excluded[c]++; s.mu.Unlock() }
-func (s *Stats) Inconclusive()      { s.mu.Lock(); s.inconclusive++; s.mu.Unlock() }
-func (s *Stats) SetExhaustive()     { s.mu.Lock(); s.exhaustive = true; s.mu.Unlock() }
+func (s *Stats) Inconclusive()     { s.mu.Lock(); s.inconclusive++; s.mu.Unlock() }
+func (s *Stats) SetExhaustive()    { s.mu.Lock(); s.exhaustive = true; s.mu.Unlock() }
 func (s *Stats) Extra(k string, v any) {
 	s.mu.Lock()
 	s.extra[k] = v
